@@ -435,3 +435,10 @@ Theorem C08_repaired_after_failed_attempts : forall eps c (A : gset positive) n,
   Inv2 eps c' /\ (forall i t, c_heap c' !! i = Some t -> synced_at eps c' i t \/ i ∈ A) /\ Cover c'.
 Proof. exact repaired_after_failed_attempts. Qed.
 Print Assumptions C08_repaired_after_failed_attempts.
+
+(* --- batches of bind contexts (BATCH_BIND_NUM > 1) --- *)
+Theorem C08_bind_batch_is_fold : forall eps l c,
+  same_but_errq (fst (bind_batch eps c l))
+                (fold_left (fun c x => let '(j, t, n, f) := x in fst (bind_task eps c j t n (f =? 1))) l c).
+Proof. exact bind_batch_is_fold. Qed.
+Print Assumptions C08_bind_batch_is_fold.
